@@ -194,12 +194,28 @@ def gen_case(g, name):
     return case
 
 
-def run_group(spec, ctx, groups, per_op, check_meta=True):
+class NarrowGen(G.Gen):
+    """Operands that sometimes come in narrower coefficient dtypes (no arithmetic groups)."""
+
+    def poly(self, *args, **kw):
+        spec = super().poly(*args, **kw)
+        if "dtype" not in spec and self.rng.random() < 0.12:
+            kind = spec["kind"]
+            if kind == "int":
+                spec["dtype"] = self.rng.choice(["int32", "int16", "int8"])
+            elif kind == "float":
+                spec["dtype"] = self.rng.choice(["float32", "float16"])
+            elif kind == "complex":
+                spec["dtype"] = "complex64"
+        return spec
+
+
+def run_group(spec, ctx, groups, per_op, check_meta=True, gen_cls=G.Gen):
     if "replay_case" in spec:
         ctx.run_case(spec["replay_case"], lambda c: run_case(c, ctx, check_meta))
         return
     names = C.names_in_group(groups)
-    g = G.Gen(spec["seed"] * 1000003 + spec["part"] * 7919 + 11)
+    g = gen_cls(spec["seed"] * 1000003 + spec["part"] * 7919 + 11)
     for i in range(per_op):
         for name in names:
             case = gen_case(g, name)
